@@ -198,6 +198,12 @@ Proof.
 Qed.
 
 (* ---------- external threads ---------- *)
+Lemma do_start_fields2 : forall s,
+  wks (do_start c s) = repeat WOuter (nw c) /\ disp (do_start c s) = DLoop /\ closed (do_start c s) = false /\
+  running (do_start c s) = true /\ queue (do_start c s) = queue s /\ exts (do_start c s) = exts s /\
+  tokens (do_start c s) = 0 /\ readers (do_start c s) = readers s.
+Proof. intros s. unfold do_start. repeat split; reflexivity. Qed.
+
 Ltac su_e SU :=
   match goal with |- Inv2 _ (set_exts (upd _ ?x _) _) =>
     pose proof (SU e_rd x); pose proof (SU e_bc x); pose proof (SU e_hold x); pose proof (SU e_owed x); pose proof (SU e_send x);
@@ -276,9 +282,12 @@ Proof.
     assert (AD: all_dead s = true) by (eapply (iX c s I j); eauto).
     unfold all_dead in AD.
     pose proof (sumf_dead w_rd _ eq_refl AD) as D1. pose proof (sumf_dead w_bc _ eq_refl AD) as D2.
+    pose proof (sumf_ge_nth _ (e_mp c) _ _ _ Hj) as G8. pose proof (sumf_ge_nth _ (e_wp c) _ _ _ Hj) as G9.
     pose proof (sumf_only _ e_owed (e_wp c) _ _ _ owed_wp Hj) as O1.
     pose proof (sumf_only _ e_wait (e_mp c) _ _ _ wait_mp Hj) as O2.
-    su_e SU. unfold do_start. constructor; proj; emeas; rewrite ?sumf_repeat0 by reflexivity; cbn [dpost] in *;
+    su_e SU. destruct (do_start_fields2 s) as (F1&F2&F3&F4&F5&F6&F7&F8).
+    constructor; unfold set_exts; cbn [running readers writer startmx queue pending chanq closed tokens disp wks exts acc ran canc rej];
+      rewrite ?F1, ?F2, ?F3, ?F4, ?F5, ?F6, ?F7, ?F8; emeas; rewrite ?sumf_repeat0 by reflexivity; cbn [dpost] in *;
       destruct (writer s); destruct (startmx s); cbn [b2n negb] in *; fin.
   - (* EStUnl *) inversion H; subst s1 e'; clear H; su_e SU; constructor; proj; emeas; fin.
   - (* EStRel *) inversion H; subst s1 e'; clear H; su_e SU; constructor; proj; emeas; fin.
